@@ -12,8 +12,9 @@ RULE = ("cases = (variant plain/exp/time, family full/DTC/Cholesky-latent, kerne
         "0 <= var <= k(x,x), variance at conditioning points <= regulariser, linear propagation of the input factor, "
         "uncertainty = covariance + mean_covariance, guards, and compares all six outputs with the Lean model; "
         "non-trivial = posterior variance differs from the prior variance somewhere")
-PARTIAL = ["posterior covariance PSD / var >= 0 needs the kernel to be PSD (hypothesis in Lean for the stationary kernels); "
-           "checked numerically here", "monotonicity under added inducing points: numeric check on nested sets"]
+PARTIAL = ["posterior covariance PSD / var >= 0 needs the kernel to be PSD: proved for expressions over ExpQuad / Linear leaves "
+           "(cov_psd_of_psd_kernel + PSD.psdTree_psdOn), named hypothesis for Matern / Exponential / RatQuad leaves; checked "
+           "numerically here", "monotonicity under added inducing points: numeric check on nested sets"]
 ASSUMPTIONS = ["absolute tolerances c*eps*cond(regularised kernel)*prior variance, cond measured a posteriori"]
 CLAIM = {
     "text": "Lean theorems over R for the three families: covariance(X*) = K** - A^T A with L A = K_b* (the formula "
@@ -24,8 +25,8 @@ CLAIM = {
             "built without uncertainty refuse. Tied to /repo by comparing covariance / mean_covariance / uncertainty "
             "(diag and full) of the 9 classes with the model driver and by independent oracles (eigvalsh, refit with shifted "
             "values, nested inducing sets).",
-    "note": "var >= 0 / PSD of the posterior covariance assumes a PSD kernel (named hypothesis; not in Mathlib for Matern / "
-            "ExpQuad / RatQuad). 'Never increases when inducing points are added' is checked numerically only.",
+    "note": "var >= 0 / PSD of the posterior covariance assumes a PSD kernel (proved for ExpQuad / Linear expressions; named "
+            "hypothesis for Matern / Exponential / RatQuad: Bochner is not in Mathlib). 'Never increases when inducing points are added' is checked numerically only.",
     "technique": "Lean 4 proof (matrix algebra over the proved Cholesky/solve specs) + differential correspondence + "
                  "metamorphic oracles",
 }
